@@ -29,11 +29,26 @@ Fixpoint lgtab (tab : list (float * float)) (s : float) : float :=
   end.
 Definition b2f (b : bool) : float := if b then PrimFloat.one else PrimFloat.zero.
 (* result: warn1, warn2, recalc, then per configuration lrescale followed by its 6N coordinates *)
+(* per configuration: (order, lrescale, coordinates, N_allocated >= 3(index+N), IAS15 state of the set);
+   result per configuration: lrescale, the 6N coordinates, then the IAS15 state *)
 Definition runRescale (big : float) (tab : list (float * float)) (integ : nat) (whs eoss sm w1 w2 rc : bool)
-    (cfgs : list (nat * float * list float)) : list float :=
+    (cfgs : list (nat * float * list float * bool * list float)) : list float :=
   let '(fl, cs) := rescale_all FNum (lgtab tab) big (mkFl integ whs eoss sm w1 w2 rc)
-                     (map (fun q => let '(o, l, ps) := q in mkVC o l (unflat6 ps)) cfgs) in
-  [b2f (warn1 fl); b2f (warn2 fl); b2f (recalc fl)] ++ flat_map (fun c => vc_lres c :: flat6 (vc_ps c)) cs.
+                     (map (fun q => let '(o, l, ps, al, st) := q in mkVC o l (unflat6 ps) al st) cfgs) in
+  [b2f (warn1 fl); b2f (warn2 fl); b2f (recalc fl)] ++ flat_map (fun c => vc_lres c :: flat6 (vc_ps c) ++ vc_ias c) cs.
 
 Definition runVar2tp G ms xs ys zs wx wy wz ax ay az bx by_ bz i : list float :=
   let '(a, b, c) := grav_var2_tp FNum G (mkps ms xs ys zs) (wx, wy, wz) (ax, ay, az) (bx, by_, bz) i in [a; b; c].
+
+(* ---- reb_whfast_interaction_step, Jacobi coordinates: the loop after the acceleration transforms *)
+From RV Require Import C16.WhInteraction.
+Definition mkJPf (l : list float) : @JP float :=
+  match l with
+  | [x; y; z; vx; vy; vz; ax; ay; az] => mkJP (x, y, z) (vx, vy, vz) (ax, ay, az)
+  | _ => mkJP (PrimFloat.nan, PrimFloat.nan, PrimFloat.nan) (PrimFloat.nan, PrimFloat.nan, PrimFloat.nan) (PrimFloat.nan, PrimFloat.nan, PrimFloat.nan)
+  end.
+Definition w3l (v : @W3 float) : list float := let '(a, b, c) := v in [a; b; c].
+(* l: particles i = 1 .. N_real-1: (p_j[i].m, the 9 numbers of p_j[i], the 9 numbers of each p_j[i+index]) *)
+Definition runWhLoop (G dt soft : float) (na : nat) (m0 : float) (l : list (float * list float * list (list float))) : list float :=
+  flat_map (fun o => w3l (fst o) ++ flat_map w3l (snd o))
+    (wh_loop FNum G dt soft na 1 m0 (map (fun q => let '(m, p, dps) := q in (m, mkJPf p, map mkJPf dps)) l)).
